@@ -107,6 +107,20 @@ def check_case(case, ctr):
         bad('fromdict-raw-neighbour-order', nb(lat), nb(raw2.lattice))
     if nb(raw.lattice) != nb(lat):
         bad('fromdict-raw-neighbour-order', nb(lat), nb(raw.lattice))
+    for i in range(len(d['lattice']) - 1):
+        if len(d['lattice'][i][0]) == len(d['lattice'][i + 1][0]):
+            sw = list(range(len(d['lattice'])))
+            sw[i], sw[i + 1] = sw[i + 1], sw[i]
+            inv = {old: new for new, old in enumerate(sw)}
+            swapped = {'objects': d['objects'], 'properties': d['properties'], 'context': d['context'],
+                       'lattice': [(d['lattice'][o][0], d['lattice'][o][1],
+                                    tuple(inv[x] for x in d['lattice'][o][2]),
+                                    tuple(inv[x] for x in d['lattice'][o][3])) for o in sw]}
+            raw3 = concepts.Context.fromdict(swapped, raw=True)
+            ctr['calls'] += 1
+            if order_obs(case, raw3.lattice) != base or nb(raw3.lattice) != nb(lat):
+                bad('fromdict-raw-same-size-swap', base, order_obs(case, raw3.lattice), swapped=[i, i + 1])
+            break
     rl = raw.lattice
     if rl.infimum is not list(rl)[0] or rl.supremum is not list(rl)[-1] or \
             case.opos(rl.supremum.extent) != tuple(range(case.n)):
